@@ -110,7 +110,38 @@ def sequence_part(res, pid="C03"):
                             "why": ["publication %d (%s) is complete and no update is in flight; the client attached all along obtained %s, a client attaching now %s"
                                     % (k + 1, want, got_l, got_f)]})
                 break
-    res.oblige("after every publication of a sequence both an attached and a fresh client obtain it (%d sequences, shim-free)" % len(outs), not bad)
+    # a daemon restarted over the segment (left whole, or cut short behind its header) under an attached client
+    # that does not look after every publication: whenever it looks, no update in flight, it obtains the latest
+    rlines, rmeta = [], []
+    for k in range(60 if res.tier == "quick" else 2000):
+        n1 = rng.choice([1, 1, 2, 3, rng.randrange(1, 7)])
+        n2 = rng.choice([n1, n1, n1 + 1, max(1, n1 - 1), rng.randrange(1, 8)])
+        cut = rng.choice([72, 72, 16, 17, 40, 64, 71, rng.randrange(16, 72)])
+        mask = rng.choice([0, 0, rng.randrange(1 << n2), (1 << n2) - 1])
+        recs = [(1000 + j, rng.randrange(10 ** 9), 2000 + j, 0, rng.randrange(10 ** 9), rng.choice([1000, 50000]), rng.randrange(3)) for j in range(n1 + n2)]
+        rlines.append("pubr %d %d %d %d %s" % (n1, cut, n2, mask, " ".join(" ".join(map(str, r)) for r in recs)))
+        rmeta.append((n1, cut, n2, mask, recs))
+    routs = c.run_lines_hang_aware(c.build_harness("debug")[0], rlines, "hang")
+    for (n1, cut, n2, mask, recs), ln, o in zip(rmeta, rlines, routs):
+        res.evaluations += 1
+        res.count("gen:restart under an attached client, file %s" % ("whole" if cut == 72 else "cut short behind the header"))
+        res.nontriv(ln)
+        if o in ("hang", "crash"):
+            bad.append({"schedule": ln, "impl": o, "why": ["two daemons publishing in turn and a client reading did not return within 5 s (%s)" % o]})
+            continue
+        if pid == "C18":
+            continue
+        for tok in o.split():
+            tag, got = tok.split(":", 1)
+            kk = n1 + n2 if tag == "F" else int(tag[1:])
+            want = ":".join(map(str, recs[kk - 1]))
+            if got != want:
+                who = "a client attaching afresh" if tag == "F" else "the client attached since the first publication"
+                bad.append({"schedule": ln, "impl": o,
+                            "why": ["daemon 1 published %d records and went away, the file was %s, daemon 2 started over it; after its publication %d (%s), no update in flight, "
+                                    "%s obtained %s" % (n1, "left whole" if cut == 72 else "cut to %d bytes" % cut, kk - n1, want, who, got)]})
+                break
+    res.oblige("after every publication of a sequence both an attached and a fresh client obtain it (%d sequences, %d with a restart of the daemon, shim-free)" % (len(outs), len(routs)), not bad)
     if bad:
         res.violation({"property": pid, "kind": "history", "case": bad[0], "others": [b["schedule"][:200] for b in bad[1:4]],
                        "predicate": "if no update is in flight while a call executes, the call returns the most recently completed publication" if pid == "C03"
